@@ -537,8 +537,51 @@ def _shapes(tier):
     return shapes
 
 
+# functions that work on whole ranges of cash flows (and dates): (leading
+# scalars, values, dates or None)
+FLOW_RANGES = {
+    'IRR': ((), (-100, 60, 70), None),
+    'XNPV': ((0.1,), (-100, 60, 70), (43831, 43900, 44000)),
+    'XIRR': ((), (-100, 60, 70), (43831, 43900, 44000)),
+}
+
+
+def gen_c_flows(name, tier):
+    fixed, flows, dates = FLOW_RANGES[name]
+    fixed = [fcall.native(v) for v in fixed]
+    n = len(flows)
+    for r, c in ((n, 1), (1, n)):
+        for which in ((0,) if dates is None else (0, 1)):
+            for pos in range(n):
+                for code in CODES:
+                    arrs = []
+                    for w, vals in enumerate((flows, dates)):
+                        if vals is None:
+                            continue
+                        cells = [fcall.native(v) for v in vals]
+                        if w == which:
+                            cells[pos] = E(code)
+                        arrs.append(['array', [cells[k * c:(k + 1) * c]
+                                               for k in range(r)]])
+                    for rname in ('call', 'range'):
+                        args = fixed + arrs
+                        yield {
+                            'g': 'c', 'fn': name, 'form': 'call',
+                            'args': args,
+                            'route': 'call' if rname == 'call' else 'formula',
+                            'hows': ['lit'] * len(args), 'judge': 'propagate',
+                            'tags': ['grp:c', 'fn:' + name, 'shape:range',
+                                     'route:' + rname],
+                            'key': 'C07/c/%s/range/%dx%d/arr=%d/cell=%d/'
+                                   'err=%s/route=%s' % (name, r, c, which,
+                                                        pos, code, rname)}
+
+
 def gen_c(shard, tier):
     name = shard['name']
+    if name in FLOW_RANGES:
+        yield from gen_c_flows(name, tier)
+        return
     maxlen = 4 if deep(tier) else 3
     if name == 'SUMPRODUCT':
         for shape in ((2, 1), (2, 2)) if not deep(tier) else (
@@ -852,7 +895,7 @@ def plan(tier):
         shards.append({'g': 'a', 'name': op})
     for name in b_functions():
         shards.append({'g': 'b', 'name': name})
-    for name in sorted(AGG_LISTS) + ['SUMPRODUCT']:
+    for name in sorted(AGG_LISTS) + ['SUMPRODUCT'] + sorted(FLOW_RANGES):
         shards.append({'g': 'c', 'name': name})
     for op in BINOPS + ('OP_NEG', 'OP_PERCENT'):
         for route in ('call', 'formula'):
